@@ -153,6 +153,8 @@ def gen_attr_text(rng, lo=1, hi=24):
     n = rng.randint(lo, hi)
     pool = _ASCII if rng.random() < 0.5 else _ASCII + _LATIN1_HI
     s = u"".join(rng.choice(pool) for _ in range(n))
+    if rng.random() < 0.1:
+        s = u"@" + s              # a name like "@home": text, not a JID (an '@' in first position)
     return str(s)
 
 
